@@ -254,16 +254,31 @@ func sessionLookups(c *vf.Ctx) {
 		{[]string{"ws", "test"}, []uint32{21, 0x0D0A0920, 0x20202020, 0x20C4A1B7}},
 		{[]string{"nl"}, []uint32{21, 7, 0x0A000000}},
 		{[]string{"tab", "x"}, []uint32{21, 0x09000009, 0x0900000D}},
+		{[]string{"big", "example"}, []uint32{21, 0x80000000, 0xFFFFFFFF, 5}}, // sub-authorities are unsigned 32-bit values
 	}
 	if c.Thorough() {
 		doms = append(doms, domSpec{[]string{"a", "b", "c", "d", "e"}, []uint32{21, 1, 2, 3}}, domSpec{[]string{"x-1", "y"}, []uint32{21, 10, 4294967294, 65536}})
 	}
 	domainRIDs := []uint32{500, 501, 512, 513, 1000, 1105, 2147483648, 4294967295, 0x20000001, 0x0A00000A, 0x0D0A0920, 0xA0000085}
+	// every RID an ordinary account can get in a small domain: whatever table decides "this RID is a BUILTIN alias"
+	// must not claim any of them (aliases live below 1000)
+	baseRIDs := domainRIDs
+	var manyRIDs []uint32
+	manyRIDs = append(manyRIDs, baseRIDs...)
+	for r := uint32(1001); r <= 1700; r++ {
+		if r != 1105 {
+			manyRIDs = append(manyRIDs, r)
+		}
+	}
 	// variants of what the directory holds
 	variants := []string{"full", "no-builtin-container", "no-accounts", "domain-object-with-a-builtin-rid", "child-domain"}
 	nLookups := 0
-	for _, dom := range doms {
+	for di, dom := range doms {
 		for _, variant := range variants {
+			domainRIDs := baseRIDs
+			if c.Thorough() || di == 0 && variant == "full" {
+				domainRIDs = manyRIDs // the dense sweep: one domain in quick, every domain and variant in thorough
+			}
 			dir := &directory{rootDSE: map[string][]string{
 				"defaultNamingContext":       {dom.dn()},
 				"configurationNamingContext": {"CN=Configuration," + dom.dn()},
@@ -274,6 +289,9 @@ func sessionLookups(c *vf.Ctx) {
 			}
 			if variant != "no-builtin-container" {
 				for _, rid := range ldap_attributes.LocalRIDs {
+					if rid >= 1000 {
+						continue // no BUILTIN alias has such a RID; the directory is not built to suit the table
+					}
 					dir.entries = append(dir.entries, &dirEntry{dn: fmt.Sprintf("CN=Builtin%d,CN=Builtin,%s", rid, dom.dn()), classes: []string{"top", "group"}, auth: 5, subs: []uint32{32, uint32(rid)}, hasSID: true})
 				}
 			}
@@ -396,6 +414,16 @@ func sessionLookups(c *vf.Ctx) {
 					continue
 				}
 				ss := dir.sidSearches[0]
+				if variant != "no-accounts" && rid >= 1000 {
+					for _, e := range dir.entries {
+						if strings.HasPrefix(e.dn, fmt.Sprintf("CN=Account%d,", rid)) {
+							e := e
+							c.Check("C16/session/FindObjectSIDByRID/an-existing-account-is-found-by-its-RID", got == e.sidText(), func() string {
+								return fmt.Sprintf("%s: the directory holds %s with objectSid %s; FindObjectSIDByRID(%q, %d) searched %s and returned %q", ctxt(), e.dn, e.sidText(), dom.dns(), rid, ss.filter, got)
+							})
+						}
+					}
+				}
 				switch len(ss.returned) {
 				case 0:
 					c.Check("C16/session/FindObjectSIDByRID/nothing-found-gives-no-SID", got == "", func() string {
